@@ -119,6 +119,24 @@ pub fn put_extra_key<S: Src>(s: &mut S, doc: &mut Doc, declared: &[&str]) {
     doc.push(Tok::NULL);
 }
 
+/// a variant tag that is none of the declared names: 1..=2 symbolic ASCII letters
+pub fn put_bad_tag<S: Src>(s: &mut S, doc: &mut Doc, declared: &[&str], span: u16, len: u16) {
+    let off = doc.nb;
+    let a = s.u8();
+    let b = s.u8();
+    s.assume(a >= b'a' && a <= b'z' && b >= b'a' && b <= b'z');
+    doc.bytes[off] = a;
+    doc.bytes[off + 1] = b;
+    doc.nb = off + 2;
+    let mut j = 0;
+    while j < declared.len() {
+        let same = doc.bytes_eq(off as u16, len, declared[j]);
+        s.assume(!same);
+        j += 1;
+    }
+    doc.push(Tok::key(off as u16, len, true, span));
+}
+
 // ------------------------------------------------------------ leaf clauses of the evaluator
 
 fn tok(doc: &Doc, pos: usize) -> Tok {
